@@ -1,7 +1,10 @@
 #!/bin/bash
 # usage: confirm_seeded.sh <Cxx> <i> : confirms /tmp/mut/<Cxx>-out/<i> in a scratch worktree and files it under /verif/seeded/<Cxx>-<i>
 # (compiles, passes the pinned suite with the patch, demo passes without and fails with the patch)
-id=$1; i=$2; src=/tmp/mut/$id-out/$i; wt=/tmp/mutv/$id-$i; out=/verif/seeded/$id-$i
+# optional: <round> (2 -> reads /tmp/mut/<Cxx>-out2/<i>, files as <Cxx>-<i+2>)
+id=$1; i=$2; rnd=${3:-1}
+if [ "$rnd" = 1 ]; then src=/tmp/mut/$id-out/$i; n=$i; else src=/tmp/mut/$id-out$rnd/$i; n=$((i + 2 * (rnd - 1))); fi
+wt=/tmp/mutv/$id-$n; out=/verif/seeded/$id-$n
 export CARGO_NET_OFFLINE=true
 mkdir -p /tmp/mutv; rm -rf $wt
 git -C /repo worktree add --detach $wt HEAD -q || exit 1
@@ -40,4 +43,4 @@ cat > $out/meta.json <<EOM
  "ran": ["cargo test --offline [--features $feat] --test demo_mut (clean: pass)", "git apply patch.diff", "cargo test --offline [--features async] --lib --test stack --test tests --test uninit_buf (pass)", "cargo test --offline [--features $feat] --test demo_mut (patched: fail)"]}
 EOM
 cd /; git -C /repo worktree remove --force $wt
-echo "$id-$i clean=$demo_clean suite=$suite_ok fails=$demo_patched_fails feat=[$feat]"
+echo "$id-$n clean=$demo_clean suite=$suite_ok fails=$demo_patched_fails feat=[$feat]"
